@@ -729,6 +729,24 @@ func c18RunCallG(out *zzverif.Out, c *c18Case, fix bool, realS *Sampler, r float
 				if !c18SoftmaxOK(sv, pv) {
 					flags = append(flags, "softmax")
 				}
+				// the run guard of the `_on` theorems (model: runGood): no NaN is ever compared — none after the
+				// shift, among the scaled values, the probabilities, the running sums of the topP scan, the minP
+				// threshold, the cumulative sums (the target r*total is looked at in c18Status)
+				nanSeen := c18HasNaN(lv) || c18HasNaN(sv) || c18HasNaN(pv) || s.topP != s.topP
+				{
+					var acc float32
+					for _, v := range pv {
+						acc += v
+						if acc != acc {
+							nanSeen = true
+						}
+					}
+					if len(fp) > 0 {
+						if th := fp[0].value * s.minP; th != th {
+							nanSeen = true
+						}
+					}
+				}
 				if km == "panic" || len(fm) == 0 {
 					flags = append(flags, "empty")
 				} else {
@@ -740,6 +758,9 @@ func c18RunCallG(out *zzverif.Out, c *c18Case, fix bool, realS *Sampler, r float
 					}
 					if !c18IsAsc(cum) {
 						flags = append(flags, "cum")
+					}
+					if c18HasNaN(cum) {
+						nanSeen = true
 					}
 					cumF = cum
 					if small {
@@ -757,11 +778,18 @@ func c18RunCallG(out *zzverif.Out, c *c18Case, fix bool, realS *Sampler, r float
 						out.Case(fmt.Sprintf("pick %s %s", c18Bits(r), c18FList(fv)), obs)
 					}
 				}
+				if nanSeen {
+					flags = append(flags, "nan")
+				}
 				baseFlags = flags
 				haveBase = true
 				status = c18Status(baseFlags, cumF, r)
 				if status == "ok" {
 					out.Count("contract_ok")
+				} else if c.weird && status == "bad:nan" {
+					// a NaN PARAMETER (not expressible in a JSON request, L1 only) is compared: the run guard
+					// says so on both sides; not a broken IEEE contract
+					out.Count("contract_nan_weird_params")
 				} else {
 					out.L2("contract-broken", line, "stage contract "+status+" although the scaled maximum is finite")
 				}
@@ -1200,12 +1228,26 @@ func (f c18FixedSrc) Uint64() uint64 { return uint64(f) }
 
 // c18Status joins the contract flags of a run; the only one that depends on r is `r*total <= total`.
 func c18Status(base []string, cum []float32, r float32) string {
-	flags := append([]string(nil), base...)
+	flags := []string{}
+	nan := false
+	for _, f := range base {
+		if f == "nan" { // the run guard `runGood`: reported last, together with its r-dependent part
+			nan = true
+		} else {
+			flags = append(flags, f)
+		}
+	}
 	if len(cum) > 0 {
 		sum := cum[len(cum)-1]
 		if !(r*sum <= sum) {
 			flags = append(flags, "r")
 		}
+		if t := r * sum; t != t {
+			nan = true
+		}
+	}
+	if nan {
+		flags = append(flags, "nan")
 	}
 	if len(flags) == 0 {
 		return "ok"
@@ -1360,7 +1402,9 @@ type c18Stage struct {
 // ---------------------------------------------------------------- histories
 
 // c18Hist is the unit of a run: ONE sampler (parameters + seed) and a sequence of calls on it.
-//   H <tempbits> <k> <pbits> <minpbits> <seed> <ncalls> {<n> <logitbits>*}*
+//
+//	H <tempbits> <k> <pbits> <minpbits> <seed> <ncalls> {<n> <logitbits>*}*
+//
 // (the older single-call form `S <temp> <k> <p> <minp> <seed> <n> <bits>*` is still read)
 type c18Hist struct {
 	temp, p, mp float32
